@@ -19,8 +19,8 @@ ASSUMPTIONS = [
     'transitions are observed through ENTERED_STATE callbacks while the process is open and through state sampling after every loop callback afterwards',
 ]
 BUDGET = {
-    'quick': {'enum': ['k1', 'k2', 'hooks', 'wc', 'tasks', 'observers', 'closed', 'extsoon'], 'hyp': 4000, 'shards': 8},
-    'thorough': {'enum': ['k1', 'k2', 'k3', 'k4w', 'hooks', 'wc', 'tasks', 'observers', 'closed', 'extsoon'], 'hyp': 160000, 'shards': 16},
+    'quick': {'enum': ['k1', 'k2', 'hooks', 'wc', 'tasks', 'observers', 'closed', 'extsoon', 'listener'], 'hyp': 4000, 'shards': 8},
+    'thorough': {'enum': ['k1', 'k2', 'k3', 'k4w', 'hooks', 'wc', 'tasks', 'observers', 'closed', 'extsoon', 'listener'], 'hyp': 160000, 'shards': 16},
 }
 
 ALPHABET = [['pause', 'p'], ['play'], ['kill', 'kt'], ['resume', 1], ['fail', '']]  # (an exception with an empty message is an exception)
@@ -97,6 +97,19 @@ def enumerate_cases(tier, scope):
                 yield dict(gen.base(name), schedule=[['reload']] + sched, tag=f'wc-reload:{name}')
                 yield dict(gen.base(name), schedule=[['pause', 'p'], ['tick', 1], ['reload']] + sched, tag=f'wc-reload:{name}')
         return
+    if scope == 'listener':
+        # listeners that act from inside the notification about the end of the process (or an earlier one): they take
+        # themselves off the process, put another listener on it, close it, or ask for a kill / pause / play
+        for name in ('wait1', 'chain', 'async2', 'selfkill', 'failing'):
+            for on in ('on_process_finished', 'on_process_killed', 'on_process_excepted', 'on_process_running', 'on_process_waiting', 'on_process_paused'):
+                for do in (['unsubscribe'], ['subscribe'], ['close', None], ['kill', 'lk'], ['pause', 'lp'], ['play', None], ['raise_cancelled']):
+                    if do[0] == 'raise_cancelled' and not on.endswith(('finished', 'killed', 'excepted')):
+                        continue  # (a cancellation that surfaces in the notification about the end: the end stays the end)
+                    if do[0] == 'close' and on in ('on_process_running', 'on_process_waiting', 'on_process_paused'):
+                        continue  # (closing a live process takes the observers off it: scope `closed`)
+                    for sched in ([], [['tick', 1], ['kill', 'k']], [['tick', 2], ['pause', 'p']], [['tick', 1], ['fail', 'f']]):
+                        yield {'program': gen.CATALOGUE[name], 'schedule': sched, 'listener': [{'on': on, 'occ': 1, 'do': do}]}
+        return
     if scope == 'hooks':
         for name in ('wait1', 'chain', 'async2', 'selfkill', 'failing', 'sync3'):
             for hook in gen.HOOK_SITES:
@@ -124,6 +137,8 @@ def _cases(draw, tier):
     case = {'program': prog, 'schedule': sched}
     if draw(st.integers(0, 2)) == 0:
         case['hooks'] = draw(gen.hook_plans(['kill', 'pause', 'play', 'fail']))
+    elif draw(st.integers(0, 2)) == 0:
+        case['listener'] = [{'on': draw(st.sampled_from(['on_process_finished', 'on_process_killed', 'on_process_excepted', 'on_process_running', 'on_process_waiting', 'on_process_paused', 'on_process_played'])), 'occ': draw(st.integers(1, 2)), 'do': draw(st.sampled_from([['unsubscribe'], ['subscribe'], ['kill', 'lk'], ['pause', 'lp'], ['play', None]]))}]
     if draw(st.integers(0, 2)) == 0:
         case['cleanup_raises'] = draw(st.integers(0, 2))
     if draw(st.integers(0, 3)) == 0:
@@ -160,7 +175,10 @@ def execute(case):
             v('initial-state', f'first observed state is {first_state}')
         # every announced transition is an edge of the graph, and they chain
         prev_to = 'created'
-        for frm, to, _idx in ex.transitions:
+        # (a cancellation raised by a listener from the notification about the end passes through the library before the
+        # state-event callbacks are called: the announcements are incomplete then, the sampled states are judged)
+        announced_all = not any(plan['do'][0] == 'raise_cancelled' for plan in case.get('listener', ()))
+        for frm, to, _idx in ex.transitions if announced_all else ():
             if frm != prev_to:
                 v('transition-chain', f'transition {frm}->{to} announced but previous state was {prev_to}')
             if to not in GRAPH.get(frm, set()):
@@ -168,7 +186,7 @@ def execute(case):
             prev_to = to
         # the sampled state always is the state that was announced last: a change that bypasses the announcement
         # (e.g. after close(), when the callbacks are gone) is a change of a terminal state within one loop callback
-        for i, smp in enumerate(ex.samples):
+        for i, smp in enumerate(ex.samples if announced_all else ()):
             announced = 'created'
             for _frm, to, idx in ex.transitions:
                 if idx <= i:
@@ -195,6 +213,11 @@ def execute(case):
                 terminal_seen = state
             was_terminated = was_terminated or terminated
             last = state
+        # a terminal state that a listener was told about (and saw) is the state the process keeps
+        for pid_, note, seen in ex.world.extra.get('noted_states', ()):
+            if pid_ == ex.proc.pid and seen in TERMINAL and ex.samples and ex.samples[-1][1] != seen:
+                v('terminal-not-final', f'a listener saw the process {seen} in {note}, but it ended up {ex.samples[-1][1]}')
+                break
         # the outcome of a terminated process (exception object, kill text, result) never changes either
         first_sig = None
         for i, smp in enumerate(ex.samples):
